@@ -38,4 +38,9 @@ TEXTS = {
         "level_text": "Exploration: 100k (quick) / 1.6M (thorough) generated (configuration, root, shape, program, tail, write) cases; for each, dimensions and EVERY pixel of the derived view are compared with the documented coordinate formula, one write through the view is checked to change exactly one root channel (whole root and raw buffer diffed), and seven identities are checked pixel- and address-wise. Dereference-adaptor (colour-converted, channel) and bit-aligned/planar/packed locators are in the matrix.",
         "level_note": "The model is written from the documentation formulas only. Virtual locators are covered by the separate c02_virtual target.",
     },
+    "C03": {
+        "technique": "rapidcheck-generated views and walks against an integer position model, with complete enumeration of (start, advance) pairs and of step-iterator offset pairs inside every case",
+        "level_text": "Exploration: 24k (quick) / 480k (thorough) generated views (28 organisations, padded / negative-step / transposed / sub-sampled / bit-aligned with odd bit strides / channel and colour-converted adaptors); for each, every (start index, d) pair of the 1-D iterator (w*h <= 40), every offset pair of every row and column iterator, all nine access paths of every pixel, the 1-D traversability predicate, and a generated walk of iterator and locator moves with cached locations and axis iterators.",
+        "level_note": "Identity of pixels is address / bit-range identity wherever the reference type allows it, so a path that reaches an equal-valued but different pixel is still caught.",
+    },
 }
